@@ -336,8 +336,14 @@ func genCrashProgram(r *rand.Rand) crashPlan {
 		case x < 0.26:
 			ops = append(ops, bt.Op{Ev: "DeleteTable", T: t})
 		case x < 0.38:
-			m := bt.Mod{K: []string{"create", "update", "drop"}[g.pick(3)], F: []j.B{j.S("f"), j.S("g"), j.S("h")}[g.pick(3)], Rule: g.rule(1)}
-			ops = append(ops, bt.Op{Ev: "ModifyFamilies", T: t, Mods: []bt.Mod{m}})
+			// one to three modifications; the rules come from a set of two, so that an update often restates the rule the
+			// family already has (a modification that changes nothing, possibly the last one of a request that does)
+			var mods []bt.Mod
+			for k, nm := 0, 1+g.pick(3); k < nm; k++ {
+				rule := []bt.Rule{{T: "maxver", N: 1}, {T: "none"}}[g.pick(2)]
+				mods = append(mods, bt.Mod{K: []string{"create", "update", "update", "drop"}[g.pick(4)], F: []j.B{j.S("f"), j.S("g"), j.S("h")}[g.pick(3)], Rule: rule})
+			}
+			ops = append(ops, bt.Op{Ev: "ModifyFamilies", T: t, Mods: mods})
 		case x < 0.46:
 			op := bt.Op{Ev: "DropRowRange", T: t}
 			if g.chance(0.6) {
